@@ -821,3 +821,59 @@ def _fmt_of(n, fm):
             f = fm[tname][0]
             return 'p=%d, emin=%d, emax=%d' % f
     return 'widest format'
+
+
+# ------------------------------------------------------------------ explicit casts ---
+def r_explicit_cast(P, rep, rule):
+    """parse.c cast(): `( type-name ) cast-expression` (not a compound literal) yields new_cast(operand, type-name) on every accepting path -
+    whatever the operand's type is (no path that looks at sizes or kinds and returns the operand unconverted or converted to another type).
+    The conversion itself is code generation (R02.1/R02.17)."""
+    from .interp import Obj, View, _Ref, VarPlace
+    from .lib_parse import TokenModel
+    pu = P.unit('parse.c')
+    for f in ('cast', 'new_cast', 'typename'):
+        if f not in pu.functions:
+            raise AnalysisBroken('parse.c: %s vanished' % f)
+    where = 'parse.c:%d' % pu.fn('cast').line
+    key = 'parse.c:cast:type-cast'
+    tm = TokenModel(P, pu, ['cast'], extra_opaque=['cast', 'unary', 'typename', 'is_typename', 'add_type', 'new_cast', 'copy_type'], loop_limit=1)
+    it = tm.interp()
+    try:
+        res = it.explore('cast', lambda ctx: [_Ref(VarPlace({'rest': None}, 'rest')), tm.token('tok')], max_paths=600)
+    except AnalysisBroken as e:
+        rep.undecided(rule, key, 'cast() is not interpretable: %s' % e, where=where)
+        return
+
+    def ident(v):
+        v = it.settle(v) if isinstance(v, View) else v
+        if isinstance(v, View):
+            return ('cell', id(v.cell))
+        return ('obj', id(v)) if isinstance(v, Obj) else ('val', repr(v))
+    n = 0
+    for ctx, out in res:
+        if out[0] != 'ret':
+            continue
+        calls = [e for e in ctx.events if e[0] == 'call']
+        tn = [e for e in calls if e[1] == 'typename']
+        rec = [e for e in calls if e[1] == 'cast']
+        if not tn or not rec:
+            continue          # no type name in parentheses, or a compound literal (handed to unary)
+        n += 1
+        nc = [e for e in calls if e[1] == 'new_cast']
+        if not nc:
+            rep.ob(rule, key + ':operand-returned-unconverted', False,
+                   'on a path of cast() a parenthesised type name followed by a cast-expression yields the operand without a conversion node '
+                   '(decisions: %s): `(float)i` would keep the bits of i, `(int)f` those of f (C11 6.5.4p5)' % '; '.join(ctx.trail[-3:]), where=where, facts={'path': ctx.trail})
+            continue
+        last = nc[-1]
+        ok_operand = len(nc) == 1 and ident(last[2][0]) == ident(rec[-1][4])
+        ok_type = ident(last[2][1]) == ident(tn[-1][4])
+        ok_ret = ident(out[1]) == ident(last[4])
+        tag = '' if (ok_operand and ok_type and ok_ret) else (':wrong-operand' if not ok_operand else ':wrong-type' if not ok_type else ':conversion-not-returned')
+        rep.ob(rule, key + tag, not tag,
+               'a type cast builds new_cast(%s, %s) and returns %s; C11 6.5.4: the value of the cast-expression converted to the named type'
+               % (getattr(it.settle(last[2][0]) if isinstance(last[2][0], View) else last[2][0], 'label', '?'),
+                  getattr(it.settle(last[2][1]) if isinstance(last[2][1], View) else last[2][1], 'label', '?'),
+                  'it' if ok_ret else 'something else'), where=where, facts={'path': ctx.trail})
+    if n == 0:
+        rep.undecided(rule, key, 'no accepting path of cast() parses a parenthesised type name followed by a cast-expression', where=where)
